@@ -36,14 +36,26 @@ Definition roots_mismatches (cs : list roots_case) : list N :=
   flat_map (fun c => match c with (i, n, tbl, regs, o) =>
      if res_eq_dec (roots n (fun r => nth r tbl []) regs) o then [] else [i] end) cs.
 
+(* the callback trace is written compactly, one number per event:
+   ((root * 256 + who) * 3 + kind) * 4 + phase, who = 0 for the root itself and
+   identity + 1 for an expression (identities are below 255) *)
+Definition decode_ev (c : N) : event :=
+  let ph := (c mod 4)%N in let c1 := (c / 4)%N in
+  let k := (c1 mod 3)%N in let c2 := (c1 / 3)%N in
+  let w := (c2 mod 256)%N in let r := (c2 / 256)%N in
+  Ev (match ph with 0 => Exec | 1 => Prepare | 2 => Validate | _ => Finalize end%N)
+     (N.to_nat r)
+     (if (w =? 0)%N then None else Some (N.to_nat (w - 1)))
+     (match k with 0 => Call | 1 => Report | _ => Fail end%N).
+
 (* RunDSL(): a case is (index, program, callback trace, class of the returned error,
    what Context.Roots() returned before RunDSL) *)
-Definition run_case := (N * program * list event * outcome * res)%type.
+Definition run_case := (N * program * list N * outcome * res)%type.
 
 Definition run_mismatches (cs : list run_case) : list N :=
   flat_map (fun c => match c with (i, p, tr, o, ro) =>
      let m := run_dsl p in
-     if list_eq_dec event_eq_dec (fst m) tr then
+     if list_eq_dec event_eq_dec (fst m) (map decode_ev tr) then
        if outcome_eq_dec (snd m) o then
          if res_eq_dec (roots_of p (s_regs (init_state p))) ro then [] else [i]
        else [i]
@@ -52,7 +64,8 @@ Definition run_mismatches (cs : list run_case) : list N :=
 (* thorough tier: every digraph on 4 roots x the 24 registration orders, compactly:
    (graph code g, observed result per order); bit (4*i+j) of g <-> root i depends on
    root j; a result is the index of the returned order among the 24 permutations in
-   lexicographic order, 24 for a cycle error, 25 for anything else *)
+   lexicographic order, 24 for a cycle error, 25 for anything else; the 24 results
+   are packed into one number *)
 Fixpoint perms_fuel (f : nat) (xs : list nat) : list (list nat) :=
   match f with
   | 0 => [[]]
@@ -76,11 +89,14 @@ Fixpoint index_of (l : list nat) (ps : list (list nat)) (k : N) : N :=
 Definition code4 (r : res) : N :=
   match r with Ok l => index_of l perms4 0%N | Cycle => 24%N | OutOfFuel => 26%N end.
 
-Definition graph4_case := (N * list N)%type.
+(* the 24 results of one graph packed into one number, base 27, first order least significant *)
+Definition pack (cs : list N) : N := fold_right (fun c acc => (c + 27 * acc)%N) 0%N cs.
+
+Definition graph4_case := (N * N)%type.
 
 Definition graph4_mismatches (cs : list graph4_case) : list N :=
   flat_map (fun c => match c with (g, obs) =>
-     if list_eq_dec N.eq_dec (map (fun o => code4 (roots 4 (deps4 g) o)) perms4) obs then [] else [g] end) cs.
+     if N.eqb (pack (map (fun o => code4 (roots 4 (deps4 g) o)) perms4)) obs then [] else [g] end) cs.
 
 (* short constructors for the case files *)
 Definition E := mkE.
